@@ -40,6 +40,10 @@ var c13Bundles = [][]c13File{
 	{{"one.soy", "{namespace a}\n/** @param u2\n @param u1\n @param u3 */\n{template .t}\nx\n{/template}\n"}},
 	{{"one.soy", "{namespace a}\n/** */\n{template .t}\n{let $l2: 1/}{let $l1: 2/}{let $l3: 3/}x\n{/template}\n"}},
 	{{"one.soy", "{namespace a}\n/** */\n{template .t}\n{$d2}{$d1}{$d3}\n{/template}\n"}},
+	// 13: one namespace spread over two files whose declarations differ; values with HTML specials
+	{{"one.soy", "{namespace a autoescape=\"false\"}\n/** @param x */\n{template .t}\n{$x.x}{call .t2 data=\"all\"/}\n{/template}\n"},
+		{"two.soy", "{namespace a}\n/** @param x */\n{template .t2}\n{$x.x}{call b.u data=\"all\"/}\n{/template}\n"},
+		{"three.soy", "{namespace b autoescape=\"true\"}\n/** @param x */\n{template .u}\n{$x.x}\n{/template}\n"}},
 }
 
 var c13Globals = data.Map{"G_MAP": data.Map{"k2": data.Int(2), "k1": data.String("v")}, "G_LIST": data.List{data.Int(1), data.String("s")}, "G_STR": data.String("g")}
@@ -109,7 +113,7 @@ func c13Run(t, perm int) (decision, errText, rest string) {
 		}
 	}
 	tofu, _ := b.CompileToTofu()
-	for _, name := range []string{"a.t", "b.u", "b.w", "c.v"} {
+	for _, name := range []string{"a.t", "a.t2", "b.u", "b.w", "c.v"} {
 		var buf bytes.Buffer
 		rerr := tofu.Render(&buf, name, nil)
 		_ = rerr
